@@ -145,6 +145,9 @@ def declared_stream(ctx, rng, n):
                 else:
                     ex = json.dumps("x" * (ml + rng.choice([0, 1]) if conform else ml - 1))
                 alts = ['{type: "integer", min: %d}' % lo, '{type: "string", minLength: %d}' % ml]
+                if rng.random() < 0.5:
+                    # a container alternative next to the scalar ones: the scalar example still has to obey the rules of a scalar alternative
+                    alts.append(rng.choice(['{type: "object"}', '{type: "array"}', '{type: "object", additionalProperties: true}', '{type: "array", minItems: 0}']))
                 rng.shuffle(alts)
                 rule = "or: [%s]" % ", ".join(alts)
             else:
